@@ -105,7 +105,15 @@ WORKLOADS = {
     # coldexp: a first call in epoch 0, killed at every point; the recovering calls are made in epoch 1 under the validity
     # rule (an output.pkl whose metadata.json was never written must not be served: its age is unknown)
     "coldexp": dict(setup=[], action=_call(X), ver=0, bystanders=[], rec_epoch=1, variants=["since", "expafter"]),
+    # the environment is an input: the same first call / refresh with TMPDIR on ANOTHER file system than the cache (every
+    # process of the history). Nothing in the store protocol may depend on it: same operations, same crash behaviour (a
+    # store that stages its temporaries in the system temporary folder falls back from rename to copy there, i.e. writes
+    # output.pkl / metadata.json in place under their final names).
+    "cold-xfs": dict(setup=[], action=_call(X), ver=0, bystanders=[], variants=["plain"], xfs=1, same_ops_as="cold"),
+    "refresh-xfs": dict(setup=[_call(3), _call(4)], action=_call(X, cb="since1", epoch=1), ver=0, bystanders=[4],
+                        rec_epoch=1, variants=["since"], xfs=1, same_ops_as="refresh"),
 }
+XFS = {}  # name of the workload currently prepared / killed in this process -> its processes run with TMPDIR elsewhere
 VARIANT_CB = {"plain": "none", "expires": "long", "since": "since1", "expafter": "exp1"}
 REAL_CB = {"none": None, "long": "long", "now": "now", "since1": "since", "exp1": "expafter"}
 MODEL_CB = {"none": "none", "long": "long", "now": "now", "since1": "since1", "exp1": "since1"}
@@ -144,10 +152,40 @@ def _real_spec(base, cache, p):
                     callback=REAL_CB[p["cb"]], shelve=bool(p["shelve"]), compress=bool(p["compress"]))
         if p.get("epoch", 0) or p["cb"] in ("since1", "exp1"):
             spec.update(epoch_file=_epoch_file(base, p.get("epoch", 0)), threshold=_threshold(base))
+        if XFS.get("on"):
+            spec.update(tmpdir=_other_fs(base))
         return spec
     if p["kind"] == "reduce":
         return dict(repo=repo, moddir=_moddir(base, 0), cache=cache, action="reduce", items_limit=p["items_limit"])
     return dict(repo=repo, moddir=_moddir(base, 0), cache=cache, action="clear")
+
+
+_TMPDIRS = []  # directories created outside ctx.scratch (removed by run/search, whatever happens)
+
+
+def _cleanup_tmpdirs():
+    while _TMPDIRS:
+        shutil.rmtree(_TMPDIRS.pop(), ignore_errors=True)
+
+
+def _probe_other_fs(base):
+    """A writable directory on another file system than the scratch directory (compare st_dev), or None."""
+    import tempfile
+
+    dev = os.stat(base).st_dev
+    for cand in ("/dev/shm", "/tmp", "/var/tmp", "/run/user/%d" % os.getuid(), tempfile.gettempdir(), os.path.expanduser("~")):
+        try:
+            if os.path.isdir(cand) and os.access(cand, os.W_OK) and os.stat(cand).st_dev != dev:
+                d = tempfile.mkdtemp(prefix="verif-c05-tmp-", dir=cand)
+                _TMPDIRS.append(d)
+                return d
+        except OSError:
+            continue
+    return None
+
+
+def _other_fs(base):
+    return open(os.path.join(_root(base), "otherfs")).read().strip()
 
 
 def _epoch_file(base, epoch):
@@ -484,6 +522,7 @@ def _kill_case(a):
     """One crash point (runs in a pool worker). Returns a picklable record."""
     (base, wname, when, pre_dir, ids, clean_files, setup_ops, setup_mes, tier_thorough, rng_vals, variants) = a
     w = WORKLOADS[wname]
+    XFS["on"] = bool(w.get("xfs"))
     ACTUAL.update(ids["actual"])
     out = dict(workload=wname, when=when, cases=[])
     kdir = os.path.join(base, f"k-{wname}-{when[0]}-{when[1]}")
@@ -522,7 +561,7 @@ def _kill_case(a):
                 torn_variants += [("torn", n) for n in lens]
                 # is the interrupted write the first write(2) of this open file (then the model's op is still to come)?
                 out["first_write"] = not (kp["ops"] and kp["ops"][-1] == f"write {cp}")
-    if w.get("rec_epoch") and not tier_thorough:
+    if (w.get("rec_epoch") or w.get("xfs")) and not tier_thorough:
         torn_variants = torn_variants[:2]  # torn func_code.py / temporaries are swept by `cold`; here one sample
     state = os.path.join(kdir, "state")
     _copy(cache, state)
@@ -566,6 +605,7 @@ def _kill_case(a):
 def _prepare(ctx, res, base, wname, ids):
     """Build the pre-state of a workload, run it cleanly once. -> dict for the kill sweep."""
     w = WORKLOADS[wname]
+    XFS["on"] = bool(w.get("xfs"))
     wdir = os.path.join(base, f"w-{wname}")
     os.makedirs(wdir, exist_ok=True)
     cache = os.path.join(wdir, "cache")
@@ -711,6 +751,7 @@ def _synth_cases(ctx, res, base, prep, ids, nperm):
 def _synth_case(a):
     (base, wname, order, j, prefix, pre_dir, ids, setup_mes, variants, tag) = a
     w = WORKLOADS[wname]
+    XFS["on"] = bool(w.get("xfs"))
     ACTUAL.update(ids["actual"])
     kdir = os.path.join(base, f"s-{wname}-{tag}")
     os.makedirs(kdir, exist_ok=True)
@@ -770,16 +811,48 @@ def _explore(ctx, budget_scale=1, only=None):
     # the threshold instant between epoch 0 (the real clock) and epoch 1 (the clock shifted by EPOCH_SHIFT)
     with open(os.path.join(base, "threshold"), "w") as fh:
         fh.write(repr(time.time() + fstrace.EXPIRY_DELTA))
+    XFS["on"] = False
     ids = _ids(base)
     ACTUAL.update(ids["actual"])
     res.extra["arguments"] = ids["actual"]
+    other = _probe_other_fs(base)
+    res.extra["tmpdir_on_another_file_system"] = other or "none available (the *-xfs workloads were skipped)"
+    if other:
+        with open(os.path.join(base, "otherfs"), "w") as fh:
+            fh.write(other)
     thorough = ctx.thorough or budget_scale > 1
     rng = ctx.rng("torn")
     _code_stream(ctx, res)
     names = list(WORKLOADS) if only is None else only
+    if not other:
+        names = [n for n in names if not WORKLOADS[n].get("xfs")]
+        res.notes.append("no second writable file system found (st_dev): TMPDIR-on-another-file-system workloads skipped")
     preps = {}
     for wname in names:
         preps[wname] = _prepare(ctx, res, base, wname, ids)
+    XFS["on"] = False
+    # the environment must not matter: same operations with TMPDIR on another file system (no model involved)
+    for wname, p in preps.items():
+        twin = WORKLOADS[wname].get("same_ops_as")
+        if twin in preps:
+            res.evaluations += 1
+            res.traces_validated += 1
+            res.count("env-independence:" + wname)
+            a_ops, b_ops = p["all_ops"], preps[twin]["all_ops"]
+            if a_ops != b_ops:
+                fa = [o for ops in a_ops for o in ops]
+                fb = [o for ops in b_ops for o in ops]
+                k = next((n for n, (x, y) in enumerate(zip(fa, fb)) if x != y), min(len(fa), len(fb)))
+                res.diverge("ops:env-independence", dict(workload=wname, tmpdir="another file system", first_difference_at=k),
+                            fa[max(0, k - 2):k + 4], fb[max(0, k - 2):k + 4])
+    # a final name must only ever appear by rename — also in the clean (unkilled) run of every workload and environment
+    for wname, p in preps.items():
+        for o in p["clean_ops"]:
+            t = o.split(" ")
+            if t[0] in ("creat", "write") and t[1].rsplit("/", 1)[-1] in ("output.pkl", "metadata.json"):
+                res.fail("final-name-written-in-place:" + t[1].rsplit("/", 1)[-1],
+                         dict(workload=wname, phase="clean", tmpdir_on_another_file_system=bool(WORKLOADS[wname].get("xfs"))), o)
+                break
     # (a) clean correspondence
     reqs = [_hist_request(p["order"] or [], p["toks"]) for p in preps.values()]
     for p, rep in zip(preps.values(), ctx.driver().run(reqs)):
@@ -894,20 +967,28 @@ def _explore(ctx, budget_scale=1, only=None):
         total = len(p["clean_ops"])
         res.extra.setdefault("crash_points", {})[wname] = dict(calls=total, distinct_crash_points=len(covered[wname]),
                                                                  kill_targets=len(p["points"]))
+    if other:
+        shutil.rmtree(other, ignore_errors=True)
     res.assumptions = ["a completed system call is durable, an interrupted write leaves a prefix (kill -9, not power loss)",
                        "the live source of the cached function is not a prefix of its own '# first line:' header"]
     return res
 
 
 def run(ctx):
-    if ctx.replay:
-        case = ctx.replay.get("case", {})
-        wn = case.get("workload")
-        return _explore(ctx, only=[wn] if wn in WORKLOADS else None)
-    return _explore(ctx)
+    try:
+        if ctx.replay:
+            case = ctx.replay.get("case", {})
+            wn = case.get("workload")
+            return _explore(ctx, only=[wn] if wn in WORKLOADS else None)
+        return _explore(ctx)
+    finally:
+        _cleanup_tmpdirs()
 
 
 def search(ctx, res):
     ctx2 = core.Ctx(prop=ctx.prop, tier="thorough", seed=ctx.seed, scratch=ctx.scratch / "search")
     os.makedirs(ctx2.scratch, exist_ok=True)
-    return _explore(ctx2, budget_scale=10)
+    try:
+        return _explore(ctx2, budget_scale=10)
+    finally:
+        _cleanup_tmpdirs()
